@@ -117,10 +117,12 @@ func init() {
 
 func runC07(r *engine.Run) {
 	r.Rule("CLONE-boundary", "every Value that enters a cache map from a caller, leaves one through a return of a cache method, or moves between maps of different layers (txn -> block -> state) has the result of a Clone() call (or nil / a fresh literal) as its only provenance on every path (forward provenance dataflow over go/ssa with field-sensitive local cells and nil-refinement)")
+	r.Rule("CLONE-linear", "one Clone() result has one owner: the copy produced by a single Clone() call is not both stored in a cache map and handed out (or stored in two maps) on the same execution; every boundary crossing needs a Clone() call of its own")
 	r.Rule("WHO-layers", "BlockCacher.setValue is called only from TransactionCache.Commit; the state cache's key->versions map and hash links are written only in StateCache.commit/commitRound/Get/Remove; no call path leads from TransactionCache.{Set,Remove,Get} to setValue or from BlockCache.{Set,remove,Get,setValue} to StateCache.commit (repo call graph, interface calls by class hierarchy)")
 	r.Rule("CLONE-deep", "for every repo type implementing statecache.Value, Clone() does not return the receiver or anything sharing a reference with it: accepted forms are the codec copy (CreateNode over the receiver's Encode()) or a type without reference fields; CopyFrom stores only what it obtained through Clone()")
 	r.NotDec = append(r.NotDec, "after commit the committed values are what descendant lookups return (value-level; see C06)")
 	cloneBoundary(r, "C07")
+	cloneLinear(r)
 	whoLayers(r)
 	cloneDeep(r)
 }
@@ -196,8 +198,8 @@ func whoLayers(r *engine.Run) {
 	setValue := r.Fn(rule, pkgSC, "BlockCache", "setValue")
 	tcCommit := r.Fn(rule, pkgSC, "TransactionCache", "Commit")
 	scCommit := r.Fn(rule, pkgSC, "StateCache", "commit")
-	commitRound := r.Fn(rule, pkgSC, "StateCache", "commitRound")
-	if setValue == nil || tcCommit == nil || scCommit == nil || commitRound == nil {
+	commitRound, _ := r.P.Func(pkgSC, "StateCache", "commitRound") // optional helper: the link may also be written by commit itself
+	if setValue == nil || tcCommit == nil || scCommit == nil {
 		return
 	}
 	// 1. who calls setValue (any implementation)
@@ -240,13 +242,17 @@ func whoLayers(r *engine.Run) {
 						"key->versions map written in "+top.Name(), "the state cache's key->versions map is written outside commit/Get/Remove")
 				case "hashCache":
 					r.CallSites++
-					r.Check(top == commitRound, rule, o.next("write:StateCache.hashCache<-"+fn(f)), r.P.Pos(in.Pos()),
-						"block link written in commitRound", "the block-link map is written outside commitRound")
+					r.Check(top == commitRound && commitRound != nil || top == scCommit, rule, o.next("write:StateCache.hashCache<-"+fn(f)), r.P.Pos(in.Pos()),
+						"block link written by the commit path", "the block-link map is written outside StateCache.commit/commitRound")
 				}
 			}
 		})
 	}
-	for _, c := range g.Callers(commitRound) {
+	var crCallers []*ssa.Function
+	if commitRound != nil {
+		crCallers = g.Callers(commitRound)
+	}
+	for _, c := range crCallers {
 		r.Check(c == scCommit, rule, "call:commitRound<-"+fn(c), r.P.Pos(c.Pos()), "commitRound called from commit", "commitRound is called outside StateCache.commit")
 	}
 	// 3. no downward leak outside Commit
@@ -409,4 +415,101 @@ func checkCopyFrom(r *engine.Run, rule string, f *ssa.Function) {
 	if ok {
 		r.OK(rule, fn(f), r.P.Pos(f.Pos()), fmt.Sprintf("%d stores into the receiver, none with provenance in the argument except through Clone()", stores))
 	}
+}
+
+// cloneLinear: a single Clone() result must not reach two owners.
+func cloneLinear(r *engine.Run) {
+	const rule = "CLONE-linear"
+	n := 0
+	for _, f := range funcsOfPkg(r, pkgSC) {
+		if len(f.Blocks) == 0 {
+			continue
+		}
+		if _, isCache := cacheTypes[recvNamed(f)]; !isCache {
+			continue
+		}
+		// one label bit per Clone() call site
+		var sites []ssa.Instruction
+		engine.Instrs(f, func(in ssa.Instruction) {
+			if c, ok := in.(ssa.CallInstruction); ok {
+				if _, ok := engine.IsMethodCall(c, "Clone"); ok {
+					sites = append(sites, in)
+				}
+			}
+		})
+		if len(sites) == 0 || len(sites) > 40 {
+			continue
+		}
+		bit := map[ssa.Instruction]engine.Label{}
+		for i, sIn := range sites {
+			bit[sIn] = engine.Label(1) << uint(20+i)
+		}
+		fl := engine.RunFlow(f, engine.FlowSpec{
+			Irrelevant: engine.NoRefs,
+			Param:      func(p *ssa.Parameter, i int) engine.Label { return 0 },
+			HeapLoad:   func(ld *ssa.UnOp, base engine.Label) (engine.Label, bool) { return 0, true },
+			Call: func(c ssa.CallInstruction, arg func(ssa.Value) engine.Label) (engine.Label, bool) {
+				if b, ok := bit[c.(ssa.Instruction)]; ok {
+					return b, true
+				}
+				return 0, true
+			},
+		})
+		type sink struct {
+			in   ssa.Instruction
+			lab  engine.Label
+			what string
+		}
+		var sinks []sink
+		engine.Instrs(f, func(in ssa.Instruction) {
+			switch x := in.(type) {
+			case *ssa.MapUpdate:
+				if mt, ok := x.Map.Type().Underlying().(*types.Map); ok && isNamed(mt.Elem(), pkgSC, "valueNode") {
+					sinks = append(sinks, sink{in, fl.Of(x.Value), "stored in a cache map"})
+				}
+			case *ssa.Call:
+				if extCalleeIs(x, "hashicorp/golang-lru", "Cache", "Add") && len(x.Call.Args) == 3 {
+					sinks = append(sinks, sink{in, fl.Of(x.Call.Args[2]), "added to a per-key map"})
+				}
+			case *ssa.Return:
+				for _, res := range x.Results {
+					if isNamed(res.Type(), pkgSC, "Value") {
+						sinks = append(sinks, sink{in, fl.Of(res), "handed out to the caller"})
+					}
+				}
+			}
+		})
+		for _, sIn := range sites {
+			n++
+			b := bit[sIn]
+			var owners []sink
+			for _, sk := range sinks {
+				if sk.lab&b != 0 {
+					owners = append(owners, sk)
+				}
+			}
+			shared := ""
+			for i := 0; i < len(owners); i++ {
+				for j := i + 1; j < len(owners); j++ {
+					if owners[i].in != owners[j].in && (engine.ReachableAfter(owners[i].in, owners[j].in) || engine.ReachableAfter(owners[j].in, owners[i].in)) {
+						shared = owners[i].what + " at " + r.P.Pos(owners[i].in.Pos()) + " and " + owners[j].what + " at " + r.P.Pos(owners[j].in.Pos())
+					}
+				}
+			}
+			c := fmt.Sprintf("%s|Clone@%s", fn(f), strings.TrimPrefix(r.P.Pos(sIn.Pos()), "core/statecache/"))
+			c = fn(f) + "|Clone#" + fmt.Sprint(indexOf(sites, sIn)+1)
+			r.Check(shared == "", rule, c, r.P.Pos(sIn.Pos()), fmt.Sprintf("copy reaches %d owner(s)", len(owners)),
+				"one Clone() result is "+shared+": the cache and the caller (or two cache layers) share one mutable object, so mutating the handed-out value changes what later lookups return")
+		}
+	}
+	r.Min(rule, 6)
+}
+
+func indexOf(xs []ssa.Instruction, x ssa.Instruction) int {
+	for i, v := range xs {
+		if v == x {
+			return i
+		}
+	}
+	return -1
 }
